@@ -460,7 +460,10 @@ pub fn to_duration(num: &Number) -> Result<Duration, String> {
     let ms = &num.value * &Numeric::from(1000);
     let (ms, rem) = ms.div_rem(&Numeric::from(1));
     let ns = &rem * &Numeric::from(1_000_000);
-    Ok(Duration::milliseconds(ms.to_int().unwrap()) + Duration::nanoseconds(ns.to_int().unwrap()))
+    let not_finite = || "Implementation error: Number is not finite".to_string();
+    let ms = ms.to_int().ok_or_else(not_finite)?;
+    let ns = ns.to_int().ok_or_else(not_finite)?;
+    Ok(Duration::milliseconds(ms) + Duration::nanoseconds(ns))
 }
 
 pub fn from_duration(duration: &Duration) -> Result<Number, String> {
